@@ -114,3 +114,13 @@ Definition sql_number_value (t : str) : option (N * Z) :=
 (* plain-data view for the correspondence harness *)
 Definition emit_float_view (m : N) (sg : bool) (mag : N) : bool * option str :=
   let e := if sg then Z.opp (Z.of_N mag) else Z.of_N mag in (in_class m e, emit_float_rust m e).
+
+(* the lexer's post-pass (lex_source / lex_source_recovery, fix d8fda67): a number literal whose binary64 value is not
+   finite is a lexer error "number literal is out of range" *)
+Definition lex_literal_checked units tbl rows (s : str) : option (lit * str) :=
+  match lex_literal_u units tbl rows s with
+  | Some (LFloat m e, r) => if overflows m e then None else Some (LFloat m e, r)
+  | x => x
+  end.
+Definition lex_literal_checked_view units tbl rows (s : str) : option (N * str * (N * N) * str) :=
+  match lex_literal_checked units tbl rows s with Some (l, r) => Some (lit_view l, r) | None => None end.
